@@ -136,6 +136,16 @@ pub mod http {
         { unimplemented!() }
     }
 
+    /// http::Multipart (POST form): the value of a text field, if the form has one of that name (find_field_value: trusted)
+    pub struct Multipart { pub o: u64 }
+    impl Multipart {
+        pub uninterp spec fn field(&self, name: Seq<char>) -> Option<Seq<char>>;
+        #[verifier::external_body]
+        pub fn find_field_value<'a>(&'a self, name: &str) -> (r: Option<&'a str>)
+            ensures (r matches Some(v) ==> self.field(name@) == Some(v@)), (r is None ==> self.field(name@) is None)
+        { unimplemented!() }
+    }
+//@@ extract parse_field_value_timestamp file=crates/s3s/src/http/de.rs item="fn parse_field_value_timestamp" rewrites=attr,ret
 //@@ extract parse_opt_header_timestamp file=crates/s3s/src/http/de.rs item="fn parse_opt_header_timestamp" rewrites=attr,ret,closure:1:S3Error
 //@@ extract parse_opt_query_timestamp file=crates/s3s/src/http/de.rs item="fn parse_opt_query_timestamp" rewrites=attr,ret,closure:1:S3Error
 //@@ extract parse_header file=crates/s3s/src/http/de.rs item="fn parse_header" rewrites=attr,ret,dropwhere
